@@ -281,7 +281,7 @@ def _normalise_items(op, nslots):
     return op
 
 
-def execute(sv, w, o2_seed=0, o2_rate=0.35):
+def execute(sv, w, o2_seed=0, o2_rate=0.35, pristine_checks=2):
     """Run one history.  Returns a result dict (pure data)."""
 
     prefix = env.repo_pkg_dir()
@@ -313,6 +313,19 @@ def execute(sv, w, o2_seed=0, o2_rate=0.35):
             c['entry'] = 'select'
             need.setdefault(_call_key(c, plan[i]), (c, plan[i]))
     order = sorted(need, key=lambda k: fp.h((o2_seed, k)))
+    # a few of the reference calls are first made in forked children of the still pristine process (the library has
+    # not been used at all in this run yet): the in-process reference pass, which makes one call after the other, must
+    # agree with them - otherwise the reference pass itself was history-dependent
+    pristine = {}
+    if order and pristine_checks:
+        from sim import runner
+        prng = random.Random(o2_seed ^ 0x5eed)
+        for ck in prng.sample(order, min(pristine_checks, len(order))):
+            op, ss = need[ck]
+            try:
+                pristine[ck] = runner.isolated(_alone, sv, w, ss, op, hang_s=60)
+            except RuntimeError:
+                pass
     ref = {}
     ref_len = {}
     faulted_keys = {_call_key(op, plan[i]) for i, op in enumerate(history) if op['op'] == 'call' and op.get('fault')}
@@ -339,6 +352,15 @@ def execute(sv, w, o2_seed=0, o2_rate=0.35):
         sys.settrace(None)
         return {'discarded': 'slow-operation-in-reference-pass'}
     probe('reference_calls', len(ref))
+    early = None
+    for ck, alone in pristine.items():
+        probe('reference_calls_cross_checked_in_pristine_process')
+        if alone != ref[ck] and early is None:
+            op, ss = need[ck]
+            early = {'oracle': 'O1-history', 'step': -1, 'call': _as_call(op), 'pattern': w['keys'][op['key']]['pattern'],
+                     'expected': _j(alone), 'observed': _j(ref[ck]),
+                     'detail': 'the same call on a fresh copy answers differently in a pristine process than after the '
+                               'other reference calls made in this process'}
 
     # ---- live pass
     env.canonical_state(sv)
@@ -370,6 +392,8 @@ def execute(sv, w, o2_seed=0, o2_rate=0.35):
         elif f[1] != f0[1]:
             violate('O3-mutation', step=step, after=what, slot=slot, detail='node identities or links changed')
 
+    if early is not None:
+        violation = early
     for i, op in enumerate(history):
         if violation is not None:
             break
@@ -553,6 +577,12 @@ def execute(sv, w, o2_seed=0, o2_rate=0.35):
         'nontrivial': bool(probes.get('generator_resumed_after_peer_query') or probes.get('call_repeated_later_in_history')
                            or probes.get('fault:exc@step') or probes.get('doc_id_reused')),
     }
+
+
+def _alone(sv, w, ss, op):
+    env.canonical_state(sv)
+    ctx = _ref_ctx(sv, w, ss, _needed_slots(op))
+    return ops.safe_run(ctx, _as_call(op))
 
 
 def _matches_something(out):
